@@ -109,9 +109,49 @@ def Quiescent (fp : Hash → Bool) (c : Cfg) : Prop :=
   c.linkAB = [] ∧ c.linkBA = [] ∧
   (generate fp c.docA c.stA).2 = none ∧ (generate fp c.docB c.stB).2 = none
 
+instance (fp : Hash → Bool) (c : Cfg) : Decidable (Quiescent fp c) := by
+  unfold Quiescent; infer_instance
+
 /-- same heads and same set of changes (hence the same state: the state is a function of the set
     of changes, C01) -/
 def Converged (c : Cfg) : Prop :=
   c.docA.heads = c.docB.heads ∧ ∀ x, x ∈ c.docA.applied ↔ x ∈ c.docB.applied
+
+/-! ### C21: drop and reconnect -/
+
+/-- what `State::decode(State::encode(s))` is documented to give: only `shared_heads` persists,
+    `their_have` is `Some(vec![])`, everything else is reset -/
+def State.persisted (s : State) : State :=
+  { sharedHeads := s.sharedHeads, theirHave := some [] }
+
+/-- the state a peer comes back with -/
+inductive Reconn where
+  | fresh | persisted
+  deriving DecidableEq, Repr
+
+def Reconn.apply (s : State) : Reconn → State
+  | .fresh => State.new
+  | .persisted => s.persisted
+
+/-- the connection dropped (whatever was in flight is lost) and is re-established, each side with
+    a fresh or a persisted state -/
+def Cfg.reconnect (c : Cfg) (ra rb : Reconn) : Cfg :=
+  { c with stA := ra.apply c.stA, stB := rb.apply c.stB, linkAB := [], linkBA := [] }
+
+/-- the two-peer system with disconnects: the steps of C20 plus drop-and-reconnect -/
+inductive Step21 (fp : Hash → Bool) : Cfg → Cfg → Prop
+  | base (c c' : Cfg) : Step fp c c' → Step21 fp c c'
+  | reconnect (c : Cfg) (ra rb : Reconn) : Step21 fp c (c.reconnect ra rb)
+
+inductive Reachable21 (fp : Hash → Bool) : Cfg → Prop
+  | init (c : Cfg) : Initial c → Reachable21 fp c
+  | step (c c' : Cfg) : Reachable21 fp c → Step21 fp c c' → Reachable21 fp c'
+
+/-! ### C22 -/
+
+/-- receiving a whole sequence of messages -/
+def receiveAll : Doc → State → List Message → Doc × State
+  | d, s, [] => (d, s)
+  | d, s, m :: ms => receiveAll (receive d s m).1 (receive d s m).2 ms
 
 end AmVerif.Sync
